@@ -498,5 +498,5 @@ func c04IdentitySource(c *Ctx) {
 			c.Check(good, rule, "AddToRequestCtx in "+shortFn(f), ci.Pos(), "installs this request's own identity (from its context, its session, or a fresh one)", "the identity installed for the next handler is not this request's own: "+why)
 		}
 	}
-	c.Floor(rule, 5, "WithValue in identity + four middleware installs")
+	c.Floor(rule, 3, "WithValue in identity + the middleware installs (four on the pinned tree; a shared serving helper makes them fewer)")
 }
